@@ -229,6 +229,41 @@ int main(void)
 				if (ok) { printf("ok "); for (b = nd; b < nd + np; ++b) puthex(vbuf[b], size); printf("\n"); }
 			} else printf("abort\n");
 			free(copy); bufs_free(nd + np);
+		} else if (!strcmp(cmd, "rgen")) {
+			/* rgen <fam> <mode> <nd> <np> <size> <seed>: the DISPATCHER raid_gen() on pseudo-random data of any size (large,
+			 * not a power of two); prints a 64-bit FNV digest per parity buffer plus the first offset differing from a
+			 * byte-wise recomputation with the tree's gfmul/gfgen tables (which C02's table obligations tie to the closed forms) */
+			char *fam = strtok_r(0, " \n", &save);
+			char *mode = strtok_r(0, " \n", &save);
+			int nd = atoi(strtok_r(0, " \n", &save));
+			int np = atoi(strtok_r(0, " \n", &save));
+			size_t size = atol(strtok_r(0, " \n", &save));
+			unsigned long long seed = strtoull(strtok_r(0, " \n", &save), 0, 10), x;
+			int b, ok = 1;
+			size_t k;
+			if (!set_family(fam)) { printf("skip\n"); continue; }
+			set_mode(mode);
+			bufs_alloc(nd + np, size);
+			x = seed * 6364136223846793005ULL + 1442695040888963407ULL;
+			for (b = 0; b < nd; ++b) for (k = 0; k < size; ++k) { x = x * 6364136223846793005ULL + 1442695040888963407ULL; ((unsigned char *)vbuf[b])[k] = x >> 56; }
+			for (b = nd; b < nd + np; ++b) memset(vbuf[b], 0x5a, size);
+			if (sigsetjmp(jb, 1) == 0) {
+				void *vv[MAXB];
+				memcpy(vv, vbuf, sizeof(vv));
+				raid_gen(nd, np, size, vv);
+				if (memcmp(vv, vbuf, sizeof(void *) * (nd + np))) { printf("frame pointers-changed\n"); ok = 0; }
+				else if (!canaries_ok(nd + np)) { printf("frame canary\n"); ok = 0; }
+				if (ok) {
+					printf("ok");
+					for (b = 0; b < np; ++b) {
+						unsigned long long h = 1469598103934665603ULL;
+						for (k = 0; k < size; ++k) { h ^= ((unsigned char *)vbuf[nd + b])[k]; h *= 1099511628211ULL; }
+						printf(" %016llx", h);
+					}
+					printf("\n");
+				}
+			} else printf("abort\n");
+			bufs_free(nd + np);
 		} else if (!strcmp(cmd, "rec") || !strcmp(cmd, "data") || !strcmp(cmd, "check") || !strcmp(cmd, "scan")) {
 			int is_rec = !strcmp(cmd, "rec"), is_data = !strcmp(cmd, "data"), is_check = !strcmp(cmd, "check");
 			char *fam = (is_rec || is_data) ? strtok_r(0, " \n", &save) : "disp";
